@@ -449,20 +449,28 @@ class from_kafka(Source):
 
     @gen.coroutine
     def poll_kafka(self):
-        while True:
-            val = self.do_poll()
-            if val:
-                yield self._emit(val)
-            else:
-                yield gen.sleep(self.poll_interval)
-            if self.stopped:
-                break
+        try:
+            # nothing is polled once the source has been stopped
+            while not self.stopped:
+                val = self.do_poll()
+                if val:
+                    yield self._emit(val)
+                else:
+                    yield gen.sleep(self.poll_interval)
+        finally:
+            self._polling = False
         self._close_consumer()
 
     def start(self):
         import confluent_kafka as ck
         if self.stopped:
             self.stopped = False
+            if getattr(self, '_polling', False):
+                # the previous polling loop is still suspended (sleeping, or waiting
+                # for downstream); it carries on with its consumer, so do not start
+                # a second one
+                return
+            self._polling = True
             self.consumer = ck.Consumer(self.cpars)
             self.consumer.subscribe(self.topics)
             weakref.finalize(
